@@ -491,7 +491,11 @@ func (p *StreamPool) newConnection(k key, s Stream, ts time.Time) (c *connection
 	}
 	index := len(p.free) - 1
 	c, p.free = p.free[index], p.free[:index]
+	// an assembler that looked the object up under its previous key may be
+	// about to lock it: it must see either the old or the new state
+	c.mu.Lock()
 	c.reset(k, s, ts)
+	c.mu.Unlock()
 	return c
 }
 
@@ -564,7 +568,8 @@ func (a *Assembler) AssembleWithTimestamp(netFlow gopacket.Flow, t *layers.TCP, 
 		}
 		verifBeforeLock(&conn.mu)
 		conn.mu.Lock()
-		if !conn.closed {
+		// a closed connection may already serve another key
+		if !conn.closed && conn.key == key {
 			break
 		}
 		conn.mu.Unlock()
